@@ -502,6 +502,28 @@ class Program(object):
                 tus[name] = tu
         return cls(config, tus)
 
+    @classmethod
+    def load_example(cls, path, config="default"):
+        """Facts of one stand-alone C file under /verif/examples, parsed with the repo's include paths and flags.  Used
+        for positive examples: a rule whose count on the tree is zero must still fire on its example on every run."""
+        flags = BASE_FLAGS + CONFIGS[config] + ["-I%s/src/include" % REPO, "-I%s/src/conf" % REPO, "-iquote", "%s/src/core" % REPO,
+                                                "-resource-dir", RESOURCE_DIR, "-Wno-everything"]
+        h = hashlib.sha256()
+        h.update(open(path, "rb").read())
+        h.update(" ".join(flags).encode())
+        h.update(open(JFACTS, "rb").read()[:4096])
+        outdir = os.path.join(CACHE, "examples")
+        os.makedirs(outdir, exist_ok=True)
+        out = os.path.join(outdir, "%s-%s.json" % (os.path.basename(path), h.hexdigest()[:16]))
+        if not os.path.exists(out):
+            tmp = out + ".tmp%d" % os.getpid()
+            p_ = subprocess.run([JFACTS, path, "-o", tmp, "--"] + flags, stdout=subprocess.PIPE, stderr=subprocess.STDOUT, text=True)
+            if p_.returncode != 0 or not os.path.exists(tmp):
+                raise AnalysisBroken("example %s did not parse: %s" % (path, p_.stdout.strip()[-300:]))
+            os.replace(tmp, out)
+        name = os.path.basename(path)
+        return cls(config, {name: TU(name, out)})
+
     def all_funcs(self):
         for tu in self.tus.values():
             for f in tu.funcs.values():
